@@ -246,6 +246,122 @@ def handle_parseline(text, version):
     }
 
 
+def function_json(tealer, teal, function):
+    res = {}
+    res["fn_blocks"] = [str(b.idx) for b in function.blocks]
+    res["edges"] = {str(b.idx): {"next": [str(x.idx) for x in b.next], "prev": [str(x.idx) for x in b.prev]} for b in function.blocks}
+    res["ctx"] = {str(b.idx): block_ctx(function, b) for b in function.blocks}
+    dcs = detector_classes()
+    paths = {}
+    for name in DETECTORS:
+        try:
+            det = dcs[name](tealer)
+            outs, _, _ = quiet(det.detect)
+            ps = []
+            for o in outs:
+                ps += [[str(b.idx) for b in p] for p in o.paths]
+            paths[name] = ps
+        except Exception as e:  # pylint: disable=broad-except
+            paths[name] = {"err": exn(e)}
+    res["paths"] = paths
+    return res
+
+
+def handle_function(text, path_ids):
+    """construct_function(teal, path); also checks that the contract's own graph is unchanged and that the
+    result does not depend on which other functions were built before"""
+    from tealer.tealer import Tealer
+    from tealer.execution_context.transactions import Transaction, GroupTransaction
+    from tealer.utils.teal_enums import ContractType
+
+    path = ["B%s" % i for i in path_ids]
+    teal, _, _ = quiet(parse_teal, text, "c")
+    before = json.dumps(teal_fields(teal))
+    if os.environ.get("VERIF_OTHER_FUNCTIONS_FIRST") == "1":
+        quiet(construct_function, teal, ["B0"], "warmup")
+    fn, _, _ = quiet(construct_function, teal, path, "f")
+    after = json.dumps(teal_fields(teal))
+    teal.functions = {"f": fn}
+    txn = Transaction()
+    if teal.contract_type == ContractType.LogicSig:
+        txn.has_logic_sig = True
+        txn.logic_sig = fn
+    else:
+        txn.application = fn
+    g = GroupTransaction()
+    g.transactions = [txn]
+    tl = Tealer({"c": teal}, [g])
+    res = function_json(tl, teal, fn)
+    res["contract_graph_unchanged"] = before == after
+    return res
+
+
+def handle_group(text):
+    """text format: see ocaml/main.ml parse_group"""
+    import tempfile
+    from tealer.utils.command_line.group_config import GroupConfig
+    from tealer.utils.command_line.common import init_tealer_from_config
+
+    lines = text.split("\n")
+    contracts, txns, fn_names = [], [], []
+    tmp = tempfile.mkdtemp(prefix="verif_group_")
+    i = 0
+    while i < len(lines):
+        w = lines[i].split()
+        if w and w[0] == "C":
+            nf, nl = int(w[1]), int(w[2])
+            src = "\n".join(lines[i + 1:i + 1 + nl])
+            cname = f"c{len(contracts)}"
+            fpath = os.path.join(tmp, cname + ".teal")
+            with open(fpath, "w") as f:
+                f.write(src)
+            t, _, _ = quiet(parse_teal, src)
+            ctype = "ApprovalProgram" if t.mode == ExecutionMode.STATEFUL else "LogicSig"
+            funcs = []
+            for k in range(nf):
+                ids = lines[i + 1 + nl + k].split()[1:]
+                fname = f"{cname}_f{k}"
+                funcs.append({"name": fname, "dispatch_path": ["B" + x for x in ids]})
+                fn_names.append((cname, fname, ctype))
+            contracts.append({"name": cname, "file_path": fpath, "type": ctype, "version": t.version, "subroutines": [], "functions": funcs})
+            i += 1 + nl + nf
+        elif w and w[0] == "T":
+            _, tid, ty, hl, ls, app, ab, rel = w[:8]
+            d = {"txn_id": tid, "txn_type": {"Pay": "pay", "KeyReg": "keyreg", "Acfg": "acfg", "Axfer": "axfer", "Afrz": "afrz", "Appl": "appl", "Any": "txn"}[ty]}
+            if hl == "1":
+                d["has_logic_sig"] = True
+            if ls != "-":
+                c, fnn, _ = fn_names[int(ls)]
+                d["logic_sig"] = {"contract": c, "function": fnn}
+            if app != "-":
+                c, fnn, _ = fn_names[int(app)]
+                d["application"] = {"contract": c, "function": fnn}
+            if ab != "-":
+                d["absolute_index"] = int(ab)
+            if rel != "-":
+                d["relative_indexes"] = [{"other_txn_id": kv.split("=")[1], "offset": int(kv.split("=")[0])} for kv in rel.split(",")]
+            txns.append(d)
+            i += 1
+        else:
+            i += 1
+    cfg = GroupConfig.from_yaml({"name": "g", "contracts": contracts, "groups": [{"operation": "op", "transactions": txns}]})
+    tealer, _, _ = quiet(init_tealer_from_config, cfg)
+    dcs = detector_classes()
+    out = {}
+    for name in DETECTORS:
+        if name == "group-size-check":
+            continue
+        det = dcs[name](tealer)
+        outs, _, _ = quiet(det.detect)
+        ids = []
+        for o in outs:
+            ids += [t.transacton_id for t in o.transactions]
+        out[name] = ids
+    import shutil
+    shutil.rmtree(tmp, ignore_errors=True)
+    return out
+
+
 def sval_json(v, depth=12):
     from tealer.analyses.utils.stack_ast_builder import UnknownStackValue
 
@@ -306,6 +422,10 @@ def main():
                 r = handle_analyze(text)
             elif kind == "parseline":
                 r = handle_parseline(text, int(rest[0]) if rest else 8)
+            elif kind == "function":
+                r = handle_function(text, rest)
+            elif kind == "group":
+                r = handle_group(text)
             elif kind == "ast":
                 r = handle_ast(text)
             elif kind == "regex":
